@@ -11,6 +11,7 @@ Decided:
   R16.4  writes during scheduling go to scenario-indexed state with that scenario's index
   R16.5  no class-/module-level container is filled while a project is parsed or scheduled (scenario id -> index tables,
          caches): such a table answers the next project / scenario from stale entries
+  R16.6  no call into the scheduling core relies on a defaulted scenario-index parameter
 Not decided: equality with single-scenario runs.
 """
 from __future__ import annotations
@@ -32,6 +33,41 @@ META = {
 }
 
 SC_OK_SELF = {"self.scenarioIdx", "self.scenario_idx", "res_scen.scenarioIdx"}
+
+
+def scenario_default_rule(ctx: Ctx, rid: str):
+    """A function of the scheduling core that takes the scenario index with an integer default is always called with the
+    caller's scenario: an omitted argument silently reads / writes scenario 0 on behalf of all (C16 R16.6, C04, C10)."""
+    import re
+    repo = ctx.repo
+    n_fn = n_sites = 0
+    for fn in sorted(repo.all_funcs(), key=lambda f: f.key):
+        if not fn.module.rel.startswith("scriptplan/core/") or fn.parent is not None or not isinstance(fn.node, (ast.FunctionDef, ast.AsyncFunctionDef)):
+            continue
+        a = fn.node.args
+        pos = a.posonlyargs + a.args
+        defaults = [None] * (len(pos) - len(a.defaults)) + list(a.defaults)
+        cand = [(i, p.arg) for i, (p, d) in enumerate(zip(pos, defaults)) if re.fullmatch(r"(sc|scenario)_?idx", p.arg, re.I)
+                and isinstance(d, ast.Constant) and isinstance(d.value, int) and not isinstance(d.value, bool)]
+        cand += [(None, p.arg) for p, d in zip(a.kwonlyargs, a.kw_defaults) if re.fullmatch(r"(sc|scenario)_?idx", p.arg, re.I)
+                 and isinstance(d, ast.Constant) and isinstance(d.value, int)]
+        if not cand:
+            continue
+        n_fn += 1
+        is_method = fn.cls is not None and not any(d.endswith("staticmethod") for d in fn.decorators)
+        for (caller, call) in ctx.cg.callers(fn):
+            for (i, name) in cand:
+                n_sites += 1
+                argpos = None if i is None else (i - 1 if is_method else i)
+                passed = any(k.arg == name for k in call.keywords) or any(k.arg is None for k in call.keywords) or \
+                    (argpos is not None and (len(call.args) > argpos or any(isinstance(x, ast.Starred) for x in call.args)))
+                ctx.ob(rid, f"{caller.qual}: {norm(call)[:50]} passes {name}", (caller, call), passed,
+                       f"{fn.qual} is told which scenario it works for" if passed else
+                       f"{fn.qual}({name}={norm(defaults[i]) if i is not None else '…'}) is called without the scenario: the callee reads / writes scenario "
+                       "0 whatever scenario is being scheduled, so every other scenario is computed from the first one's values",
+                       key=key_of(rid, caller, call, f"omits {name}"))
+    ctx.ob(rid, f"{n_fn} core functions default their scenario parameter; {n_sites} call sites bind it", None, True,
+           "no call relies on the default scenario", nontrivial=False)
 
 
 def run(ctx: Ctx):
@@ -262,5 +298,6 @@ def run(ctx: Ctx):
     from .c12 import shared_container_census
     parse_reach = ctx.cg.reach([repo.func("ProjectFileParser.parse"), sched])
     shared_container_census(ctx, "R16.5", parse_reach)
+    scenario_default_rule(ctx, "R16.6")
     ctx.floor("R16.2", 12)
     ctx.floor("R16.3", 8)
